@@ -255,6 +255,15 @@ namespace bloch::compiler {
             return combine(ValueType::Void, "");
         if (auto arr = dynamic_cast<ArrayType*>(typeNode)) {
             auto elem = typeFromAst(arr->elementType.get());
+            // "Element type must be a primitive": arrays of class references were accepted but never
+            // built at run time (an initialiser '{new Q(), new Q()}' ran no constructor)
+            if (auto named = dynamic_cast<NamedType*>(arr->elementType.get())) {
+                if (!elem.isTypeParam && !elem.className.empty()) {
+                    throw BlochError(ErrorCategory::Semantic, named->line, named->column,
+                                     "array element type must be a primitive, not class '" +
+                                         elem.className + "'");
+                }
+            }
             std::string base = elem.className.empty() ? typeToString(elem.value) : elem.className;
             TypeInfo t = combine(ValueType::Unknown, base + "[]");
             t.typeArgs.clear();
